@@ -114,7 +114,8 @@ def run(rep: common.Report, tier: str, seed: int, replay=None) -> int:
     systems = [("um", "mT", "uA"), ("nm", "uT", "nA"), ("mm", "T", "mA"), ("um", "T", "mA"), ("nm", "mT", "uA")]
     B_T, I_A = 0.4e-3, 2.0e-6
     for screening in ((False, True) if tier == "thorough" else (False, True)):
-        frames, phys, failed = {}, {}, {}
+        frames, phys, failed, fields = {}, {}, {}, {}
+        P_um = np.array([[0.7, -0.4, 0.8], [-1.5, 0.9, 1.5], [2.1, 0.2, -0.6], [0.0, 0.0, 2.0]])
         with tempfile.TemporaryDirectory(prefix="pyt_c08_") as td:
             for lu, fu, cu in systems:
                 dev = device_in(base, lu)
@@ -133,6 +134,12 @@ def run(rep: common.Report, tier: str, seed: int, replay=None) -> int:
                                   for key in sorted(f["data"], key=int)]
                 K = (sol.supercurrent_density + sol.normal_current_density).to("A / m").magnitude
                 phys[key_] = K
+                # fields computed from the solution, in SI, at the same physical points
+                Pphys = P_um * (LU["um"] / LU[lu])
+                Bf = np.asarray(sol.field_at_position(Pphys, vector=True, units="tesla", with_units=False))
+                Ad = sol.vector_potential_at_position(Pphys, units="T * m", return_sum=False, with_units=False)
+                Af = sum(np.asarray(v) for k_, v in Ad.items() if k_ != "applied")
+                fields[key_] = (Bf, Af)
             if failed and len(failed) < len(systems):
                 rep.violation("the same physical problem runs in one unit system and fails in another",
                               {"screening": screening, "failed": failed, "ran": sorted(frames), "B_tesla": B_T, "I_amp": I_A})
@@ -162,6 +169,10 @@ def run(rep: common.Report, tier: str, seed: int, replay=None) -> int:
                         break
                 if np.max(np.abs(phys[lu] - phys["um"])) > 10 * tol * (np.max(np.abs(phys["um"])) + 1e-300):
                     rep.violation("the physical current density (A/m) depends on the unit system", case)
+                for nm_, a_, b_ in (("magnetic field (T)", fields[lu][0], fields["um"][0]),
+                                    ("vector potential of the film currents (T m)", fields[lu][1], fields["um"][1])):
+                    if np.max(np.abs(a_ - b_)) > 100 * tol * (np.max(np.abs(b_)) + 1e-300):
+                        rep.violation(f"the {nm_} computed from the solution at fixed physical points depends on the unit system", case)
                 rep.count(len(ref))
                 rep.nontrivial(("runs", lu, screening))
         rep.sample({"systems": systems, "screening": screening, "frames": len(ref), "B_tesla": B_T, "I_amp": I_A})
